@@ -20,7 +20,7 @@ IMPORTS = "Base GenThresholds Codebase"
 def worker(items, hashseed):
     env = dict(os.environ, PYTHONHASHSEED=str(hashseed), PYTHONPATH=REPO, LC_ALL="C", PYTHONDONTWRITEBYTECODE="1")
     p = subprocess.run(["/venv/bin/python", os.path.join(VERIF, "harness", "c06_worker.py")], input=json.dumps({"items": items}),
-                       capture_output=True, text=True, env=env, timeout=900)
+                       capture_output=True, text=True, env=env, timeout=3600)
     if p.returncode != 0:
         raise RuntimeError(p.stderr[-400:])
     return json.loads(p.stdout)
@@ -319,7 +319,7 @@ def run(tier, seed, replay=None):
             for hs in seeds_here:
                 shutil.rmtree(os.path.join(root, ".codelimit_cache"), ignore_errors=True)
                 env2 = dict(env) if hs is None else dict(env, PYTHONHASHSEED=str(hs))
-                sp = subprocess.run(["/venv/bin/python", "-m", "codelimit", "scan", root], capture_output=True, text=True, env=env2, timeout=300)
+                sp = subprocess.run(["/venv/bin/python", "-m", "codelimit", "scan", root], capture_output=True, text=True, env=env2, timeout=900)
                 try:
                     with open(F.cache_path(root)) as f:
                         this = F.canonical(json.load(f))
